@@ -16,6 +16,7 @@ import (
 	"fmt"
 	"math/rand"
 	"runtime"
+	"sort"
 	"strings"
 	"sync"
 	"sync/atomic"
@@ -456,6 +457,7 @@ func runDetSched(o *Out, _ *rand.Rand, thorough bool) {
 			continue
 		}
 		results := map[string][]string{}
+		performed := map[int64][]string{} // iterations performed → schedules
 		for _, sch := range schedules {
 			// a fresh model per schedule: the model's own random source advances with every solve
 			bt, err, pan = buildCase(c)
@@ -493,6 +495,7 @@ func runDetSched(o *Out, _ *rand.Rand, thorough bool) {
 				}
 				sh(site, args...)
 			}
+			var iterated atomic.Int64
 			sols, _, serr, span := solveAllWith(bt.model, nextroute.ParallelSolveOptions{Iterations: c.Solve.Iters, Duration: 30 * time.Second,
 				ParallelRuns: c.Solve.Runs, StartSolutions: c.Solve.Starts, RunDeterministically: true},
 				func(ps nextroute.ParallelSolver) {
@@ -501,6 +504,7 @@ func runDetSched(o *Out, _ *rand.Rand, thorough bool) {
 							return nextroute.SolveOptions{Iterations: c.Solve.Slice, Duration: 30 * time.Second}, nil
 						})
 					}
+					ps.SolveEvents().Iterated.Register(func(_ nextroute.SolveInformation) { iterated.Add(1) })
 					ps.ParallelSolveEvents().NewSolution.Register(func(info nextroute.ParallelSolveInformation, s nextroute.Solution) {
 						mu.Lock()
 						if v, ok := reported[info.Run()]; !ok || s.Score() < v {
@@ -538,8 +542,21 @@ func runDetSched(o *Out, _ *rand.Rand, thorough bool) {
 			}
 			sig := finalSig(bt.b, sols)
 			results[sig] = append(results[sig], sch.name)
+			performed[iterated.Load()] = append(performed[iterated.Load()], sch.name)
 		}
 		o.Op(fmt.Sprintf("detsched %d", ci), "detsched")
+		if len(performed) > 1 {
+			// how much work is done must not depend on the schedule either (the deadline is far away): a run that loses a part
+			// of its slice because a sibling ended first is another thing than E20 (which run is granted which slice)
+			var d []string
+			for n, names := range performed {
+				d = append(d, fmt.Sprintf("%d iterations: %s", n, strings.Join(names, "+")))
+			}
+			sort.Strings(d)
+			o.Violate(Violation{Property: "C13", Clause: "iterations-performed-depend-on-schedule",
+				Sig:    fmt.Sprintf("C13|iterations-performed-depend-on-schedule|runs=%d", c.Solve.Runs),
+				Detail: fmt.Sprintf("budget %d: ", c.Solve.Iters) + strings.Join(d, " || "), Replay: c})
+		}
 		if len(results) > 1 {
 			var d []string
 			for sig, names := range results {
